@@ -1,6 +1,8 @@
 import FractopoModel.Basic.Wire
 import FractopoModel.Generated.NodeJunctions
 import FractopoModel.Generated.IntersectionFilter
+import FractopoModel.Generated.ValidatorMethods
+import FractopoModel.Model.SnapLoop
 /-!
 # Runs the REGENERATED definitions of C02 on concrete inputs (validation of the translator itself: the generated Lean code and
 the Python code it was generated from are executed on the same inputs by stream S02-generated). Built only for the C02 check;
@@ -28,6 +30,15 @@ def interfilter (a : Args) : Option String := do
   let r := Gen.intersection_points_no_vnode inter endsOf (fun p q => decide (Pt.dist2 p q ≤ c2)) cands geom
   some s!"kept={showLine r}"
 
+/-- `gcrosscut geom=<line> cands=<lines>`: the regenerated `MultipleCrosscutValidator.validation_method` with exact geometry (traces that meet
+in isolated points only): a candidate's intersection is a MultiPoint iff it has at least two points -/
+def gcrosscut (a : Args) : Option String := do
+  let geom ← (a.get? "geom") >>= parseLine?
+  let cands ← (a.get? "cands") >>= parseLines?
+  let pts : Polyline → Polyline → List Pt := fun l m => ((SnapL.interPts l m).getD []).eraseDups
+  let r := Gen.crosscut_validation (fun tc g => !(pts tc g).isEmpty) (fun tc g => if (pts tc g).length ≥ 2 then some (pts tc g).length else none) geom cands
+  some s!"ok={showBool r}"
+
 def dispatch (line : String) : String :=
   let toks := (line.trimAscii.toString.splitOn " ").filter (· ≠ "")
   match toks with
@@ -38,6 +49,7 @@ def dispatch (line : String) : String :=
       match cmd with
       | "junctions" => junctions a
       | "interfilter" => interfilter a
+      | "gcrosscut" => gcrosscut a
       | _ => some s!"error=unknown-command:{cmd}"
     r.getD "error=bad-arguments"
 
